@@ -106,13 +106,55 @@ func genC10(r *rng, tier string, clients int) *Case {
 		}
 		cl[c] = append(cl[c], op)
 	}
+	// results left unconsumed or half consumed are consumed later, after other evaluations
+	for c := range cl {
+		slot := 0
+		var out []Op
+		pending := map[int]Op{} // position in out at which to emit -> force op
+		for _, op := range cl[c] {
+			if op.Kind == "eval" && slot < 8 && r.chance(0.3) {
+				op.Store = slot + 1
+				op.Consume = pick(r, 0, 0, 1, 3)
+				at := len(out) + 1 + r.rangeInt(1, 4)
+				for {
+					if _, busy := pending[at]; !busy {
+						break
+					}
+					at++
+				}
+				pending[at] = Op{Kind: "force", Args: []Arg{{K: "handle", I: slot}}, Ref: len(out)}
+				slot++
+			}
+			out = append(out, op)
+			for {
+				f, ok := pending[len(out)]
+				if !ok {
+					break
+				}
+				delete(pending, len(out))
+				out = append(out, f)
+			}
+		}
+		// flush what is still pending, in order of position
+		for len(pending) > 0 {
+			best := -1
+			for at := range pending {
+				if best < 0 || at < best {
+					best = at
+				}
+			}
+			out = append(out, pending[best])
+			delete(pending, best)
+		}
+		cl[c] = out
+	}
 	host := HostTables{Costs: []CostProf{{Base: pick(r, int64(0), 0, 300_000, 400_000)}}, Fails: []Match{{}, {Kind: "eq", A: 3}}, Booms: []Match{{}, {Kind: "eq", A: pick(r, 2, 17, 1000)}}}
 	sim, stalls := genSim(r, true, true)
 	if clients > 1 && sim.Policy == "canonical" {
 		sim.Policy = "pct"
 		sim.PCTDepth = 2
 	}
-	sc := &Script{Setup: setup, Clients: cl, Host: host, NFn: nfn}
+	sc := &Script{Setup: setup, Clients: cl, Host: host, NFn: nfn, NHandle: 8}
 	return &Case{Class: fmt.Sprintf("clients=%d", clients), Sim: sim, StallF: stalls, Script: sc}
 }
 
@@ -355,9 +397,43 @@ func judgeC10(name, prop string, sc *Script, r *RunOut, o *Obs) {
 		}
 	}
 	for ci, ops := range sc.Clients {
+		opText := make([]string, len(ops))
+		opNames := make([][]string, len(ops))
 		for j := range ops {
 			op := &ops[j]
 			got := r.Outcomes[1+ci][j]
+			if op.Kind == "force" {
+				if got.Skipped || !got.Done || op.Ref < 0 || op.Ref >= j || ops[op.Ref].Kind != "eval" || opText[op.Ref] == "" ||
+					ops[op.Ref].Store == 0 || len(op.Args) != 1 || op.Args[0].I != ops[op.Ref].Store-1 {
+					continue
+				}
+				if o0 := r.Outcomes[1+ci][op.Ref]; !o0.Done || !o0.Ok {
+					continue
+				}
+				full := ops[op.Ref]
+				full.Consume = -1
+				transient := false
+				for _, a := range full.Args {
+					if a.K == "hostlist" && a.FailAt > 0 {
+						transient = true // outcome depends on the traversal count by construction
+					}
+				}
+				if transient {
+					continue
+				}
+				want := isolated(opText[op.Ref], opNames[op.Ref], &full, sc.Host, o)
+				if want.Skipped || !want.Done {
+					continue
+				}
+				if want.class() != got.class() {
+					o.add(name, prop+":late-consumption-differs-from-isolated:"+progID(opText[op.Ref]), fmt.Sprintf("client %d op %d consumes the result of op %d (%s, args %s) after later evaluations: isolated=%s here=%s (%s)",
+						ci, j, op.Ref, opText[op.Ref], argString(full.Args), trunc(want.class(), 160), trunc(got.class(), 160), trunc(got.Err, 200)))
+				}
+				continue
+			}
+			if op.Kind == "eval" && op.Fn >= 0 && op.Fn < len(texts) {
+				opText[j], opNames[j] = texts[op.Fn], names[op.Fn]
+			}
 			if op.Kind == "gen" {
 				if op.Fn >= 0 && op.Fn < len(texts) {
 					texts[op.Fn], names[op.Fn] = op.Text, op.ArgNames
@@ -372,19 +448,28 @@ func judgeC10(name, prop string, sc *Script, r *RunOut, o *Obs) {
 				continue
 			}
 			if want.class() != got.class() {
-				sig := prop + ":outcome-differs-from-isolated"
-				// a wrong value in a run in which the race detector fired is attributed to that race
-				for _, v := range o.Verdicts {
-					if v.Run == name && strings.Contains(v.Sig, ":race:") {
-						sig += "+" + strings.TrimPrefix(v.Sig, prop+":")
-						break
-					}
-				}
+				// the program is part of the signature: a known finding about one program (e.g. a
+				// constant list that is appended to concurrently) does not cover other programs
+				sig := prop + ":outcome-differs-from-isolated:" + progID(texts[op.Fn])
 				o.add(name, sig, fmt.Sprintf("client %d op %d: %s with args %s consume=%d: isolated=%s here=%s (%s)",
 					ci, j, texts[op.Fn], argString(op.Args), op.Consume, trunc(want.class(), 160), trunc(got.class(), 160), trunc(got.Err, 200)))
 			}
 		}
 	}
+}
+
+// progID names a library program by its position, or by a hash for other texts
+func progID(text string) string {
+	for i, p := range histProgs {
+		if p == text {
+			return fmt.Sprintf("prog%02d", i)
+		}
+	}
+	h := uint32(2166136261)
+	for i := 0; i < len(text); i++ {
+		h = (h ^ uint32(text[i])) * 16777619
+	}
+	return fmt.Sprintf("h%08x", h)
 }
 
 func argString(a []Arg) string {
